@@ -604,3 +604,75 @@ def check_C09(tier, seed):
                        rule="the seeding protocol is model-checked exhaustively in a small world (ErrIffSourceFailed, CursorAdvance, RedrawOnlyOnZeroBlock, from_rng/try_from_rng agreement); on all 19 seedable types: seed_from_u64(x) for boundary and random x must give the generator denoted by the documented expansion (SplitMix64 stream / rand_core's PCG32 / ISAAC key words with one pass) — state image where available and 8..40 outputs; from_rng twice from one source (cursor, exact byte count, 1024/2048 bytes and two passes for ISAAC); try_from_rng against sources failing at call 1/2/3, with partial writes and sticky failures. distinct = distinct recorded events",
                        assumptions=COMMON_ASSUME + ["u64 arguments and source byte streams are a corpus; the fallible-source space is exhaustive only in the small-world model"],
                        extra_cov={"mc_model": {"states_generated": mc["states"], "distinct": mc["distinct"]}})
+
+
+# ---------------------------------------------------------------- C10 / C11
+def api_node_paths(tier, wd, names):
+    import cover
+    mc = run_api_mc(tier, wd)
+    out = {}
+    kindof = {"Hc128": "Hc128Rng", "Isaac": "IsaacRng", "Isaac64": "Isaac64Rng"}
+    for name in names:
+        r, edges = mc[name]
+        init, g = cover.project(edges, True)
+        out[kindof[name]] = cover.node_paths(init, g)
+    return mc, out
+
+
+def check_C10(tier, seed):
+    import random
+    t0 = time.time()
+    wd = vlib.workdir("mc-C10")
+    mc, paths = api_node_paths(tier, wd, ["Hc128", "Isaac", "Isaac64"])
+    ce = run_mc("MC_CloneEq", "MC_CloneEq_Hc128_q.cfg" if tier == "quick" else "MC_CloneEq_Hc128.cfg", wd, workers=8)
+    run_mc("MC_CloneEq", "neg/MC_CloneEq_Hc128_noindex.cfg", wd, workers=2, expect_violation=True)
+    S = corpora.c10_corpus(seed, tier, paths)
+    parts, nviol = [], 0
+    ev, cs, res = run_trace("C10", S, "Trace_Pair.tla", "Trace_Pair.cfg")
+    parts.append((ev, cs, res))
+    nviol += report_rejections("C10", res["rejected"], S)
+    # second phase: perturbed snapshots need images produced by the code itself
+    binp = vlib.build_harness()
+    sp, tp = os.path.join(wd, "img_s.ndjson"), os.path.join(wd, "img_t.ndjson")
+    rng = random.Random(seed + 1010)
+    ops = [{"op": "reset"}]
+    for i, kind in enumerate(("IsaacCore", "Isaac64Core")):
+        ops += [{"op": "from_seed", "g": i + 1, "kind": kind, "seed": [rng.getrandbits(8) for _ in range(32)]},
+                {"op": "generate", "g": i + 1}, {"op": "ser", "g": i + 1}]
+    vlib.write_ndjson(sp, ops)
+    vlib.drive(binp, sp, tp)
+    images = {}
+    for e in vlib.read_ndjson(tp):
+        if e.get("e") == "ser" and "image" in e:
+            images["IsaacCore" if e["g"] == 1 else "Isaac64Core"] = e["image"]
+    if len(images) != 2:
+        raise ToolError("could not obtain serde images of the ISAAC cores (serde feature off?)")
+    S2 = corpora.c10_perturbed(images, rng)
+    ev, cs, res = run_trace("C10b", S2, "Trace_Pair.tla", "Trace_Pair.cfg")
+    parts.append((ev, cs, res))
+    nviol += report_rejections("C10", res["rejected"], S2)
+    cov = base_cov(parts, "clone at buffer positions taken from TLC's state graph of the API machine (every index of the 16-word buffer; a sample of the 256-word buffers in quick, all in thorough), then == and lock-step execution of original and clone across >= 1 refill with mixed next_u32/next_u64/fill_bytes and jump/long_jump; pairs built to be almost equal (one step apart, one seed bit apart, same block other read position, serde snapshots with exactly one field of an ISAAC core perturbed, IsaacArray pairs differing in one element). The monitor Trace_Pair rejects only observed contradictions: lock-step divergence inside a class formed by clone / == true, or == false inside such a class. distinct = distinct recorded events", ["Trace_Pair"])
+    cov["mc_models"] = {n: {"states_generated": r["states"], "edges": len(e)} for n, (r, e) in mc.items() if n in ("Hc128", "Isaac", "Isaac64")}
+    cov["mc_models"]["CloneEq (two instances, Hc128Rng's hand-written ==: core and index)"] = {
+        "states_generated": ce["states"], "distinct": ce["distinct"], "invariants": ["EqIsCongruence", "CloneIsEqual", "RestoreIsIdentical", "SerDoesNotDisturb"],
+        "negative_control": "EqMode=core_only (index dropped) violates EqIsCongruence"}
+    vlib.write_evidence("C10", tier, seed, "model_checking", cov, COMMON_ASSUME[:2] + ["completeness of == is not required; an alarm needs an observed divergence or an observed == false between clone/lock-stepped generators"], time.time() - t0, nviol)
+    return 1 if nviol else 0
+
+
+def check_C11(tier, seed):
+    t0 = time.time()
+    wd = vlib.workdir("mc-C11")
+    mc, paths = api_node_paths(tier, wd, ["Isaac", "Isaac64"])
+    ce = run_mc("MC_CloneEq", "MC_CloneEq_Isaac64.cfg", wd, workers=8)
+    run_mc("MC_CloneEq", "neg/MC_CloneEq_Isaac64_nohalf.cfg", wd, workers=2, expect_violation=True)
+    S = corpora.c11_corpus(seed, tier, paths)
+    ev, cs, res = run_trace("C11", S, "Trace_Pair.tla", "Trace_Pair.cfg")
+    nviol = report_rejections("C11", res["rejected"], S)
+    cov = base_cov([(ev, cs, res)], "for the 18 serializable types: snapshot (bincode and serde_json) at buffer states taken from TLC's state graph of the API machine (index x half_used of IsaacRng / Isaac64Rng, after refills) and after random histories and jumps of the plain types; the restored generators, the original and a clone taken before serializing are then driven in lock-step across >= 1 refill with mixed operations (and ==, and a second round trip); Trace_Pair rejects any observed divergence, a failed deserialization, or == false between original and restored. distinct = distinct recorded events", ["Trace_Pair"])
+    cov["mc_models"] = {n: {"states_generated": r["states"], "edges": len(e)} for n, (r, e) in mc.items() if n in ("Isaac", "Isaac64")}
+    cov["mc_models"]["CloneEq (two instances of a BlockRng64 machine with Ser/De)"] = {
+        "states_generated": ce["states"], "distinct": ce["distinct"], "invariants": ["RestoreIsIdentical", "SerDoesNotDisturb", "EqIsCongruence", "CloneIsEqual"],
+        "negative_control": "SerMode=nohalf (half_used not serialized) violates RestoreIsIdentical"}
+    vlib.write_evidence("C11", tier, seed, "model_checking", cov, COMMON_ASSUME[:2] + ["harness built with the serde features of rand_xoshiro / rand_xorshift / rand_isaac; bincode 1.3 and serde_json as the two data formats"], time.time() - t0, nviol)
+    return 1 if nviol else 0
